@@ -384,8 +384,9 @@ def gen_uri(r, idx):
     path = r.choice(['', '/', '/a', '/test/path', '/svc/prod/web', '/a/b/c/d/e', '/p:q', '/a,b', '/x y', '//dbl', '/é'])
     name = r.choice([None, None, 'http', 'thrift', 'admin', 'a#b', 'x?y', 'n/m', 'é', '0'])
     query = r.choice([None, None, None, None, 'q=1', ''])
+    plain = all(re.fullmatch(r'[A-Za-z0-9._-]+(:[0-9]+)?', h) for h in hs)      # kazoo parses the host list itself
     return {'kind': 'zk', 'scheme': case_variant(r, 'zk'), 'hosts': ','.join(hs), 'path': path, 'name': name,
-            'query': query, 'kazoo': 'real' if r.random() < 0.12 else 'stub'}
+            'query': query, 'kazoo': 'real' if (plain and r.random() < 0.15) else 'stub'}
   if k < 0.75:
     if r.random() < 0.7:
       s = r.choice(OTHER_SCHEMES)
